@@ -984,7 +984,7 @@ fn raw_part(
 ) {
     use crate::raw::*;
     let quick = cfg.tier != "thorough";
-    let corpus = harvest("/repo");
+    let corpus = harvest(&std::env::var("VERIF_REPO").unwrap_or_else(|_| "/repo".to_string()));
     let n_wio = if cfg.id == "C08" {
         ((if quick { 12_000 } else { 300_000 }) as f64 * scale_env()) as usize
     } else {
